@@ -50,8 +50,12 @@ def props_for(path):
             ids += ps
     if path.startswith('c-api/'):
         ids += ['C17', 'C18']
-    # cheap and broad ones first, then the anchored ones
-    order = ['C02', 'C01'] + sorted(set(ids) - {'C01', 'C02'}) + (['C15'] if not path.startswith('c-api/') else [])
+    # anchored properties first, then every other dbg-capable check (an evaluator runs them all); C17/C18 only where relevant
+    anchored = sorted(set(ids))
+    rest = [i for i in ['C02', 'C01', 'C09', 'C06', 'C03', 'C14', 'C16', 'C05', 'C04', 'C07', 'C13', 'C08', 'C12', 'C11', 'C10', 'C15'] if i not in anchored]
+    if path.startswith('c-api/'):
+        rest = [i for i in rest if i in ('C02', 'C01')]
+    order = [i for i in anchored if i not in ('C15', 'C17', 'C18')] + rest + [i for i in anchored if i in ('C15', 'C17', 'C18')]
     seen = []
     for i in order:
         if i not in seen:
@@ -216,7 +220,7 @@ def run_mut(k, d, idx, mut):
         m = re.search(r'^VIOLATION property=(\S+).*$', o, re.M)
         if m:
             rec['verdict'] = 'detected'; rec['by'] = pid
-            km = re.search(r'key=(\S+)', o)
+            km = re.search(r'^--- \S+ violated: key=(\S+)', o, re.M)
             rec['key'] = km.group(1) if km else ''
             return rec
         if rc not in (0, 1):
@@ -248,6 +252,7 @@ def main():
         print(len(allm), collections.Counter(m[2] for m in allm)); print(collections.Counter(m[0] for m in allm).most_common(60))
         for m in rng.sample(allm, 25): print(m)
         return
+    allm = [m for m in allm if (m[0], m[1] + 1, m[2]) not in {(d[0], d[1], d[2]) for d in done}]
     rng.shuffle(allm)
     # at most 2 mutants per line, spread over files: round-robin by file
     byfile = {}
